@@ -1,1 +1,6 @@
+import Got.Model.Delayed
 /- property theorems of C10 (only theorems + non-vacuity examples live here) -/
+open Got.Model.Delayed
+
+/-- the ticker period of the model is the source's literal: 1000 ms -/
+theorem C10_tick_period : tickNs = 1000000000 := by decide
